@@ -420,10 +420,17 @@ func (f *Filt) Go() filter.Filter {
 		for i, c := range f.Children {
 			cs[i] = c.Go()
 		}
+		// the caller's slice is the caller's: it is reused after the call
+		var flt filter.Filter
 		if f.Tag == FAnd {
-			return filter.And(cs...)
+			flt = filter.And(cs...)
+		} else {
+			flt = filter.Or(cs...)
 		}
-		return filter.Or(cs...)
+		for i := range cs {
+			cs[i] = filter.FN(func(metav1.Object) bool { return i%2 == 0 })
+		}
+		return flt
 	case FNSName:
 		// every way a caller can make an id: the constructor, a struct literal,
 		// parsing the printed form, a field assignment on a copy — rotating, so
